@@ -1,5 +1,7 @@
 /* C01 — ID binding (sm2_compute_z) and precomputed-nonce bookkeeping (sm2_sign_finish) */
 #define CONTRACT_SIGN_RECORDING
+/* memcmp is replaced by its contract; its ghost index is aligned with stream position G_tk of the ID bytes */
+#define G_MC_EXPR (G_tk - 2)
 #include "sm2_sign.h"
 #include "src/sm2_sign.c"
 #include "stubs_stdio.h"
@@ -8,7 +10,7 @@ typedef struct { uint8_t id[24]; size_t idlen; uint64_t X[4], Y[4], Z[4]; uint32
 DECL_INPUT(z_in);
 
 /* id is an exact-size heap object of idlen bytes, NOT NUL-terminated: any read at index >= idlen is out of bounds */
-//@job name=sm2_compute_z props=C01,C06 enforce=sm2_compute_z replace=sm2_z256_point_to_bytes,sm3_init,sm3_update,sm3_finish
+//@job name=sm2_compute_z props=C01,C06 enforce=sm2_compute_z replace=sm2_z256_point_to_bytes,sm3_init,sm3_update,sm3_finish,memcmp
 void h_sm2_compute_z(void)
 {
 	INPUT(z_in, Z); ASSUME(Z.idlen >= 1 && Z.idlen <= SM2_MAX_ID_LENGTH);
